@@ -18,12 +18,17 @@ type kwCase struct {
 	Perm    []int    `json:"perm"`
 	Mode    []string `json:"mode"`
 	Shape   string   `json:"shape"` // feature label: user/configured, required/default/missing/unknown
+	// Multiline: one argument per line inside the parentheses
+	Multiline bool `json:"multiline,omitempty"`
 }
 
 func (k *kwCase) source(perm []int) string {
 	var parts []string
 	for _, i := range perm {
 		parts = append(parts, k.Kwargs[i])
+	}
+	if k.Multiline {
+		return k.Before + fmt.Sprintf(k.CallFmt, "\n  "+strings.Join(parts, ",\n  ")+"\n") + "\n" + k.After
 	}
 	return k.Before + fmt.Sprintf(k.CallFmt, strings.Join(parts, ", ")) + "\n" + k.After
 }
@@ -198,16 +203,33 @@ func genKwCall(r *RNG) *kwCase {
 	if len(kws) < 2 {
 		kws = append(kws, "zzextra: 2")
 	}
+	// shorthand keywords: `alpha:` passes the local variable alpha
+	shorthand := r.Chance(1, 4)
+	if shorthand {
+		for i, kw := range kws {
+			name := kw[:strings.Index(kw, ":")]
+			if strings.HasPrefix(name, "zz") || r.Chance(1, 3) {
+				continue
+			}
+			fmt.Fprintf(&sb, "%s = %s\n", name, strings.TrimSpace(kw[strings.Index(kw, ":")+1:]))
+			kws[i] = name + ":"
+		}
+		shape += ":shorthand"
+	}
 	callArgs := "%s"
 	if len(pos) > 0 {
 		callArgs = strings.Join(pos, ", ") + ", %s"
 	}
 	call := "res = " + recv + "kwm(" + callArgs + ")"
-	if r.Chance(1, 4) && !inClass {
+	multiline := false
+	if r.Chance(1, 4) && !inClass && !shorthand {
 		call = "res = kwm " + callArgs // no parentheses
 		shape += ":no-parens"
+	} else if r.Chance(1, 3) {
+		multiline = true
+		shape += ":multiline"
 	}
-	return &kwCase{Before: sb.String() + "x0 = 1\n", CallFmt: call, After: "dbtp res\nres.zork\n", Kwargs: kws, Shape: shape}
+	return &kwCase{Before: sb.String() + "x0 = 1\n", CallFmt: call, After: "dbtp res\nres.zork\n", Kwargs: kws, Shape: shape, Multiline: multiline}
 }
 
 func init() {
@@ -220,7 +242,7 @@ func init() {
 			return judgeKw(c, s.BlackBox(), &k)
 		},
 		Run: func(c *CheckCtx) {
-			c.rule = "calls with 2-5 keyword arguments against generated user methods (top level, instance, class methods; required and defaulted keywords mixed with 0-2 positionals; all given / one missing / one unknown; one method in four also declares **opts, receives two or three further keywords of different classes and prints the hash, a lookup, its values, its keys and the block variables of each; with and without parentheses) and against the configured methods that declare keywords (Dir.glob base:, Test.keyword_json_test name:); every permutation of the keyword arguments for up to 4 keywords and a seeded sample of the 120 for 5 is compared with the written order; modes plain and -i. distinct_nontrivial = distinct (program, permutation, mode) with non-empty output"
+			c.rule = "calls with 2-5 keyword arguments against generated user methods (top level, instance, class methods; required and defaulted keywords mixed with 0-2 positionals; all given / one missing / one unknown; one method in four also declares **opts, receives two or three further keywords of different classes and prints the hash, a lookup, its values, its keys and the block variables of each; with and without parentheses, one argument per line, shorthand keywords `name:` passing a local) and against the configured methods that declare keywords (Dir.glob base:, Test.keyword_json_test name:); every permutation of the keyword arguments for up to 4 keywords and a seeded sample of the 120 for 5 is compared with the written order; modes plain and -i. distinct_nontrivial = distinct (program, permutation, mode) with non-empty output"
 			c.assumptions = []string{"pairs in which a run crashes or hangs are skipped (C01/C02)"}
 			r := c.RNG.Sub(14)
 			var jobs []*kwCase
